@@ -28,6 +28,7 @@ CONSTANTS
   MaxDepth,      \* 0 = unbounded (closed BFS); > 0 bounds behaviours (simulation) and prints them at that depth
   Ramp,          \* simulation only: fill/drain phases that push fan-outs through every threshold
   StartFull,     \* simulation only: behaviours start from the tree holding every insertable key (drain first)
+  CovOn,         \* count how often each tagged code path of the model is evaluated (vacuity report; one worker)
   \* deviations; the defaults describe the current (repaired) tree
   SizeOnSplit,   \* TRUE: compressed-path split counts the new key (D3 fixed)
   RangeDepth,    \* "perPath" (D4 fixed) | "perScan"
@@ -36,6 +37,19 @@ CONSTANTS
   KCounter       \* "perIteration" (D8 fixed) | "perSequence"
 
 InlineMax == 10
+
+(* Branch counters for the vacuity report: Cov(i, v) is v; with CovOn it also bumps TLC register i. *)
+CovNames == <<"leaf split", "path split, inline path", "path split, path longer than the inline limit",
+              "insert: key exhausted (not prefix-free)", "overwrite", "add child without growing", "grow to the next size class",
+              "delete: node4 collapses into a leaf child", "delete: node4 merged into an inner child", "shrink to a smaller size class",
+              "optimistic part of a path compared through the minimum leaf", "search: inline path mismatch",
+              "search: key ends inside an optimistic path (guard)", "search: no child under the byte", "delete: miss",
+              "range scan: subtree pruned", "range scan: early stop after the end bound", "range scan: leaf below the start bound",
+              "prefix: diverges inside a compressed path", "prefix: ends inside a compressed path", "prefix: no child under the byte",
+              "prefix: descent reaches a leaf">>
+Cov(i, v) == IF CovOn THEN (IF TLCSet(i, TLCGet(i) + 1) THEN v ELSE v) ELSE v
+CovInit == \A i \in 1..Len(CovNames) : TLCSet(i, 0)
+CovReport == PrintT(<<"COV", ToJson([i \in 1..Len(CovNames) |-> TLCGet(i)])>>)
 
 N == Len(Keys)
 T(k) == Keys[k].t
@@ -104,7 +118,7 @@ SeqRemove(s, i)    == SubSeq(s, 1, i - 1) \o SubSeq(s, i + 1, Len(s))
 (* a full node is first copied into the next size class                            *)
 AddChild(nd, b, child) ==
   LET pos  == FirstIdx(1, Len(nd.bytes) + 1, LAMBDA i : nd.bytes[i] > b)
-      kind == IF Len(nd.ch) >= Cap(nd.kind) THEN NextKind(nd.kind) ELSE nd.kind
+      kind == IF Len(nd.ch) >= Cap(nd.kind) THEN Cov(7, NextKind(nd.kind)) ELSE Cov(6, nd.kind)
   IN  MkInner(kind, nd.plen, nd.pfx, SeqInsert(nd.bytes, pos, b), SeqInsert(nd.ch, pos, child))
 
 ReplaceChild(nd, i, child) == [nd EXCEPT !.ch[i] = child]
@@ -117,13 +131,13 @@ RemoveChild(nd, i) ==
       n  == Len(cs)
   IN  IF nd.kind = "n4" /\ n = 1
       THEN LET c == cs[1]
-           IN  IF c.kind = "leaf" THEN c
-               ELSE LET np == c.plen + nd.plen + 1
+           IN  IF c.kind = "leaf" THEN Cov(8, c)
+               ELSE LET np == Cov(9, c.plen + nd.plen + 1)
                     IN  [c EXCEPT !.plen = np,
                                   !.pfx = TakeN(nd.pfx \o <<bs[1]>> \o c.pfx, Min2(InlineMax, np))]
-      ELSE LET kind == CASE nd.kind = "n16" /\ n = 3 -> "n4"
-                         [] nd.kind = "n48" /\ n = 12 -> "n16"
-                         [] nd.kind = "n256" /\ n = 37 -> "n48"
+      ELSE LET kind == CASE nd.kind = "n16" /\ n = 3 -> Cov(10, "n4")
+                         [] nd.kind = "n48" /\ n = 12 -> Cov(10, "n16")
+                         [] nd.kind = "n256" /\ n = 37 -> Cov(10, "n48")
                          [] OTHER -> nd.kind
            IN  MkInner(kind, nd.plen, nd.pfx, bs, cs)
 
@@ -138,7 +152,7 @@ PrefixMismatch(nd, key, depth) ==
       idx1 == FirstIdx(0, mx, LAMBDA j : nd.pfx[j + 1] # key[depth + j + 1])
   IN  IF idx1 < mx THEN idx1
       ELSE IF nd.plen > InlineMax
-      THEN LET lk  == MinLeaf(nd).tk
+      THEN LET lk  == Cov(11, MinLeaf(nd).tk)
                mx2 == Min2(Len(lk), Len(key)) - depth
            IN  IF mx2 <= idx1 THEN idx1
                ELSE FirstIdx(idx1, mx2, LAMBDA j : lk[depth + j + 1] # key[depth + j + 1])
@@ -153,7 +167,7 @@ LeafSplit(nd, key, k, depth) ==
   LET lk    == nd.tk
       lcp   == LCPFrom(lk, key, depth)
       split == depth + lcp
-      n0    == MkInner("n4", lcp, TakeN(Drop(key, depth), Min2(lcp, InlineMax)), <<>>, <<>>)
+      n0    == Cov(1, MkInner("n4", lcp, TakeN(Drop(key, depth), Min2(lcp, InlineMax)), <<>>, <<>>))
       n1    == IF split < Len(lk) THEN AddChild(n0, lk[split + 1], nd) ELSE n0
       n2    == IF split < Len(key) THEN AddChild(n1, key[split + 1], MkLeaf(k, key, 1)) ELSE n1
   IN  Res(n2, TRUE)
@@ -164,23 +178,23 @@ PathSplit(nd, key, k, depth, pd) ==
       lk    == MinLeaf(nd).tk
       b     == IF short THEN nd.pfx[pd + 1] ELSE lk[depth + pd + 1]
       old   == IF short
-               THEN [nd EXCEPT !.plen = np, !.pfx = Drop(nd.pfx, pd + 1)]
-               ELSE [nd EXCEPT !.plen = np, !.pfx = TakeN(Drop(lk, depth + pd + 1), Min2(np, InlineMax))]
+               THEN Cov(2, [nd EXCEPT !.plen = np, !.pfx = Drop(nd.pfx, pd + 1)])
+               ELSE Cov(3, [nd EXCEPT !.plen = np, !.pfx = TakeN(Drop(lk, depth + pd + 1), Min2(np, InlineMax))])
       n0    == MkInner("n4", pd, TakeN(nd.pfx, Min2(pd, InlineMax)), <<b>>, <<old>>)
   IN  IF depth + pd >= Len(key)
-      THEN Res(n0, FALSE)      \* key exhausted inside the path (not prefix-free): dropped
+      THEN Cov(4, Res(n0, FALSE))      \* key exhausted inside the path (not prefix-free): dropped
       ELSE Res(AddChild(n0, key[depth + pd + 1], MkLeaf(k, key, 1)), SizeOnSplit)
 
 RECURSIVE InsAt(_, _, _, _)
 InsAt(nd, key, k, depth) ==
   IF nd.kind = "leaf"
-  THEN IF nd.k = k THEN Res(nd, FALSE)               \* same key (identity, not transformed bytes): only the value changes
+  THEN IF nd.k = k THEN Cov(5, Res(nd, FALSE))       \* same key (identity, not transformed bytes): only the value changes
        ELSE LeafSplit(nd, key, k, depth)
   ELSE LET pd == IF nd.plen # 0 THEN PrefixMismatch(nd, key, depth) ELSE 0
        IN  IF nd.plen # 0 /\ pd < nd.plen
            THEN PathSplit(nd, key, k, depth, pd)
            ELSE LET d2 == depth + nd.plen
-                IN  IF d2 >= Len(key) THEN Res(nd, FALSE)      \* key exhausted: dropped
+                IN  IF d2 >= Len(key) THEN Cov(4, Res(nd, FALSE))      \* key exhausted: dropped
                     ELSE LET i == FindIdx(nd, key[d2 + 1])
                          IN  IF i # 0
                              THEN LET r == InsAt(nd.ch[i], key, k, d2 + 1)
@@ -203,11 +217,11 @@ PathOK(nd, key, depth) ==
 RECURSIVE SearchAt(_, _, _, _)
 SearchAt(nd, key, k, depth) ==
   IF nd.kind = "leaf" THEN (IF nd.k = k THEN nd.k ELSE 0)
-  ELSE IF ~PathOK(nd, key, depth) THEN 0
+  ELSE IF ~PathOK(nd, key, depth) THEN Cov(12, 0)
   ELSE LET d2 == depth + nd.plen
-       IN  IF d2 >= Len(key) THEN (IF SearchGuard THEN 0 ELSE -1)
+       IN  IF d2 >= Len(key) THEN Cov(13, IF SearchGuard THEN 0 ELSE -1)
            ELSE LET i == FindIdx(nd, key[d2 + 1])
-                IN  IF i = 0 THEN 0 ELSE SearchAt(nd.ch[i], key, k, d2 + 1)
+                IN  IF i = 0 THEN Cov(14, 0) ELSE SearchAt(nd.ch[i], key, k, d2 + 1)
 
 SearchTop(tr, k) == IF tr.kind = "empty" THEN 0 ELSE SearchAt(tr, T(k), k, 0)
 
@@ -215,7 +229,7 @@ DRes(t, res) == [t |-> t, res |-> res]
 
 RECURSIVE DelAt(_, _, _, _)
 DelAt(nd, key, k, depth) ==
-  IF ~PathOK(nd, key, depth) THEN DRes(nd, FALSE)
+  IF ~PathOK(nd, key, depth) THEN Cov(15, DRes(nd, FALSE))
   ELSE LET d2 == depth + nd.plen
        IN  IF d2 >= Len(key) THEN DRes(nd, FALSE)
            ELSE LET i == FindIdx(nd, key[d2 + 1])
@@ -306,8 +320,8 @@ ScanLoop(stack, gdepth, acc, start, end, search) ==
            nd   == e.nd
            rest == SubSeq(stack, 1, Len(stack) - 1)
        IN  IF nd.kind = "leaf"
-           THEN IF LexLess(nd.tk, start) THEN ScanLoop(rest, gdepth, acc, start, end, search)
-                ELSE IF LexLess(end, nd.tk) THEN acc                        \* break: nothing further can be in range
+           THEN IF LexLess(nd.tk, start) THEN Cov(18, ScanLoop(rest, gdepth, acc, start, end, search))
+                ELSE IF LexLess(end, nd.tk) THEN Cov(17, acc)               \* break: nothing further can be in range
                 ELSE ScanLoop(rest, gdepth, Append(acc, nd.k), start, end, search)
            ELSE LET depth == IF RangeDepth = "perScan" THEN gdepth ELSE e.d
                     cmp   == SubSeq(search, depth + 1, depth + Min2(Len(search) - depth, InlineMax))
@@ -316,7 +330,7 @@ ScanLoop(stack, gdepth, acc, start, end, search) ==
                              /\ LCP0(nd.pfx, cmp) = 0
                     cd    == depth + nd.plen + 1
                     kids  == [i \in 1..Len(nd.ch) |-> [nd |-> nd.ch[Len(nd.ch) + 1 - i], d |-> cd]]
-                IN  IF prune THEN ScanLoop(rest, gdepth, acc, start, end, search)
+                IN  IF prune THEN Cov(16, ScanLoop(rest, gdepth, acc, start, end, search))
                     ELSE ScanLoop(rest \o kids, cd, acc, start, end, search)
 
 RangeScan(tr, start, end) ==
@@ -385,17 +399,17 @@ RangeL1(tr, a, b) ==
 
 RECURSIVE LcpLoop(_, _, _)
 LcpLoop(nd, p, depth) ==
-  IF nd.kind = "leaf" THEN nd
+  IF nd.kind = "leaf" THEN Cov(22, nd)
   ELSE LET idx == IF nd.plen # 0 THEN PrefixMismatch(nd, p, depth) ELSE 0
        IN  IF nd.plen # 0 /\ idx < nd.plen
-           THEN (IF depth + idx < Len(p) THEN EmptyTree ELSE nd)
+           THEN (IF depth + idx < Len(p) THEN Cov(19, EmptyTree) ELSE Cov(20, nd))
            ELSE LET d2 == depth + nd.plen
                 IN  IF d2 >= Len(p) THEN nd
                     ELSE LET i == IF LcpBranch THEN FindIdx(nd, p[d2 + 1])
                                   ELSE (IF \E j \in 1..Len(nd.ch) : nd.ch[j].kind # "leaf"
                                         THEN CHOOSE j \in 1..Len(nd.ch) : nd.ch[j].kind # "leaf" /\ \A x \in 1..(j-1) : nd.ch[x].kind = "leaf"
                                         ELSE 0)
-                         IN  IF i = 0 THEN (IF LcpBranch THEN EmptyTree ELSE nd)
+                         IN  IF i = 0 THEN Cov(21, IF LcpBranch THEN EmptyTree ELSE nd)
                              ELSE LcpLoop(nd.ch[i], p, d2 + 1)
 
 PrefixL1(tr, p) ==
